@@ -252,6 +252,7 @@ type Link struct {
 	srvCancel   context.CancelFunc
 	srvDone     bool
 	srvAbortErr error
+	srvRetErr   error
 	srvTrailer  metadata.MD
 
 	// fault plan
@@ -372,6 +373,7 @@ func (l *Link) serverReturn(err error) {
 		return
 	}
 	l.srvDone = true
+	l.srvRetErr = st.Err()
 	l.srvCancel()
 	l.conn.Tap.record(&TapEvent{Link: l, Kind: "server-returned", Err: errString(st.Err())})
 	if l.srvAbortErr != nil {
@@ -458,6 +460,13 @@ func (l *Link) ServerDone() bool {
 	l.mu.Lock()
 	defer l.mu.Unlock()
 	return l.srvDone
+}
+
+// ServerReturn reports whether the carrier handler has returned and its status error.
+func (l *Link) ServerReturn() (error, bool) {
+	l.mu.Lock()
+	defer l.mu.Unlock()
+	return l.srvRetErr, l.srvDone
 }
 
 // send enqueues one frame. side-specific termination checks are supplied by stop.
